@@ -14,10 +14,12 @@ Differences between the classes that reach the LP:
 
 * `kLeastAbsErrors`, `kMinPathError`: `NodeExpandedDiGraph(G, node_flow_attr=flow_attr, node_length_attr=length_attr)`
   — the copy `(u.1, v.0)` of an edge that lacks the length attribute gets length `0` (`expandLengths`);
-* `kPathCover(cover_type="node")`: `NodeExpandedDiGraph(G_with_flow_attr, node_flow_attr=<fresh dummy>)`, **no**
-  `node_length_attr`: every node carries the dummy attribute (no node is ignored for lacking it), and the length
-  attribute is only *copied* (`add_edge(…, **G.nodes[node])`, `add_edge(…, **G.edges[pred, node])`), so the copy
-  of an edge that lacks it gets the default `G[u][v].get(length_attr, 1) = 1` (`coverLengths`);
+* `kPathCover(cover_type="node")`: `NodeExpandedDiGraph(G_with_flow_attr, node_flow_attr=<fresh dummy>,
+  node_length_attr=length_attr)`: every node carries the dummy attribute (no node is ignored for lacking it); the
+  length attribute is read as in the other classes (`expandLengths`) since fix 65014a7. Before that fix the class
+  did not pass `node_length_attr`: the attribute was only *copied* (`add_edge(…, **G.edges[pred, node])`) and the copy
+  of an edge lacking it read as the default `G[u][v].get(length_attr, 1) = 1` (`coverLengths`, kept for the
+  regression theorem `FP.Props.C11.kcover_node_mode_length_regression`);
 * `kMinPathError` passes `encode_edge_position=True`.
 -/
 namespace FP
@@ -76,14 +78,15 @@ def coverNG (ng : NodeGraph) : NodeGraph :=
   { g := ng.g, nodeFlow := ng.g.nodes.map fun v => (v, 0), edgeFlow := [], nodeLen := ng.nodeLen,
     edgeLen := ng.edgeLen }
 
-/-- the length attribute on the expansion built *without* `node_length_attr`: copied from nodes and edges that
-carry it; an edge copy without it reads as the default `1` -/
+/-- **former reading (before fix 65014a7)** of the length attribute, on an expansion built *without*
+`node_length_attr`: copied from nodes and edges that carry it; an edge copy without it reads as the default `1`.
+No longer used by the model of the class. -/
 def coverLengths (ng : NodeGraph) : Option (List (Edge × Rat)) :=
   ng.nodeLen.map fun nl =>
     nl.map (fun p => (nodeEdge p.1, p.2)) ++ ng.g.edges.map (fun e => (edgeEdge e, lookupD ng.edgeLen e 1))
 
 def kcoverNodeInternal (inp : NodeModeInput) : Except String FlowInput :=
-  match nodeTranslateGen inp (coverNG inp.nf.ng) (coverLengths inp.nf.ng) false with
+  match nodeTranslateGen inp (coverNG inp.nf.ng) (expandLengths inp.nf.ng) false with
   | .error e => .error e
   | .ok ei => if ei.fi.cfg.k = 0 then .error "k" else .ok ei.fi
 
